@@ -430,6 +430,24 @@ func Main[C any](t *testing.T, spec Spec[C]) {
 	if spec.Fixed != nil {
 		fixed = spec.Fixed()
 	}
+	// committed regression replays: witnesses of findings that were fixed, and shrunk cases of mutants the
+	// check once missed (replays/regress/<ID>-*.json). They are judged first on every run, in both tiers.
+	if rs, _ := filepath.Glob(filepath.Join(Root, "replays", "regress", spec.ID+"-*.json")); len(rs) > 0 {
+		sort.Strings(rs)
+		for _, p := range rs {
+			js, err := os.ReadFile(p)
+			if err != nil {
+				continue
+			}
+			var c C
+			if err := json.Unmarshal(js, &c); err != nil {
+				say("NOTE: regression replay %s undecodable: %v", p, err)
+				continue
+			}
+			fixed = append(fixed, c)
+			r.st.counts["regression_replays"]++
+		}
+	}
 	for i, c := range fixed {
 		js, _ := json.Marshal(c)
 		res := r.guarded(c, js)
